@@ -20,7 +20,8 @@ RULE = ('carts = (0x4300 bytes of region memory from a mode mixture incl. unifor
         'bytes are also decoded by the independent reference reader. Non-trivial = >= 3 regions with >= 16 '
         'distinct byte values and code containing a byte >= 0x80 or < 0x20; distinct by the generating seed.'
         ' Written under file names containing braces, percent signs, blanks, non-ASCII and a leading dash. Part "big": a 22k-glyph single line with escapes, 24k characters of glyph comment lines (> 64 KiB of UTF-8, seven alignments), code over the 65535-character limit and over the 8192-token limit (picotool warns and writes), each under a plain and three awkward file names via file / cli / stream.'
-        ' Further "big" shapes: line_counts (exactly 128/255/256/257/511/512/513/1024 code lines, with/without final newline) and header_like (lines of the form __X__ that are not section headers by the format\'s ASCII word rule, in strings, comments and as a glyph identifier alone on a line).')
+        ' Further "big" shapes: line_counts (exactly 128/255/256/257/511/512/513/1024 code lines, with/without final newline) and header_like (lines of the form __X__ that are not section headers by the format\'s ASCII word rule, in strings, comments and as a glyph identifier alone on a line).'
+        ' A sixteenth of the carts end their code in a bare CR.')
 ASSUMPTIONS = ['the cart\'s Lua code is what Game.lua.to_lines() yields before the write',
                'sources with a `__section__`-looking line or an #include line are outside the domain (counted)',
                'music bit 7 of every 4th byte is excepted, as the property states']
